@@ -63,6 +63,8 @@ func main() {
 	var params, overlays multi
 	flag.Var(&params, "param", "name=value (repeatable)")
 	flag.Var(&overlays, "overlay", "repoRelPath=file (repeatable): replace a repository file in the analysis")
+	crossDir := flag.String("crossdir", "", "write standalone .smt2 files of assertion obligations here (cross-check by other solvers)")
+	crossLimit := flag.Int("crosslimit", 40, "max obligations dumped per process")
 	cpuprof := flag.String("cpuprofile", "", "write a CPU profile")
 	flag.Parse()
 	if *cpuprof != "" {
@@ -70,6 +72,7 @@ func main() {
 		pprof.StartCPUProfile(f)
 		defer pprof.StopCPUProfile()
 	}
+	interp.CrossDir, interp.CrossLimit = *crossDir, *crossLimit
 	repo := os.Getenv("GOSX_REPO")
 	if repo == "" {
 		repo = "/repo"
